@@ -221,3 +221,106 @@ def pg_from_json(j: dict) -> dict:
         vv = {s: j2d(x) for s, x in v.items()}
         pg["bchange"][sem.desc_centre(next(iter(vv.values())))] = vv
     return pg
+
+
+# ---------------------------------------------------------------------------
+# provenance: the same abstract graph reached through different library operations. Freshly built graphs keep all
+# internal containers in insertion order; graphs that come out of subgraph / compose / relabel / removals / copies /
+# deserialisation do not, so defects that depend on the internal order or container type only show on those.
+# ---------------------------------------------------------------------------
+VIAS = ("direct", "subgraph", "compose", "relabel-copy", "relabel-inplace", "copy", "copy-construct", "removals", "json")
+
+
+def build_via(pg: dict, via: str, rng, cls_name: str | None = None):
+    """returns a real graph whose abstract content is pg, produced through the derivation `via` (public API only)"""
+    cls_name = cls_name or pg["cls"]
+    C = classes()
+    if via == "direct" or not pg["atoms"]:
+        return build(pg, cls_name, rng=rng)
+    if via == "json" and (any(set(v) - {"atom_type"} for v in pg["atoms"].values()) or any(set(v) - {"reaction"} for v in pg["bonds"].values())):
+        via = "copy"  # the JSON format carries elements and bond roles only
+    ids = list(pg["atoms"])
+    if via in ("subgraph", "removals"):
+        sup = sem.pg_copy(pg)
+        fresh = max((abs(a) for a in ids), default=0) + 1
+        extra = [fresh + k for k in range(rng.randint(1, 3))]
+        if rng.random() < 0.5:
+            extra = [-e for e in extra]
+        for e in extra:
+            sup["atoms"][e] = {"atom_type": rng.choice([1, 6, 8])}
+            for t in rng.sample(ids, min(len(ids), rng.randint(0, 2))):
+                sup["bonds"][frozenset((e, t))] = {}
+        g = build(sup, cls_name, rng=rng)
+        if via == "subgraph":
+            order = ids[:]
+            rng.shuffle(order)
+            return g.subgraph(order if rng.random() < 0.7 else set(order))
+        for e in extra:
+            if rng.random() < 0.5:
+                for b in [b for b in sup["bonds"] if e in b]:
+                    g.remove_bond(*tuple(b))
+            g.remove_atom(e)
+        return g
+    if via == "compose":
+        k = rng.randint(1, len(ids))
+        part = sem.pg_subgraph(pg, rng.sample(ids, k))
+        pieces = [build(part, cls_name, rng=rng), build(pg, cls_name, rng=rng)]
+        return C[cls_name].compose(pieces)
+    if via in ("relabel-copy", "relabel-inplace"):
+        tgt = [a + 7001 for a in range(len(ids))]
+        rng.shuffle(tgt)
+        m = dict(zip(ids, tgt))
+        g = build(pg, cls_name, rng=rng, idmap=m)
+        back = {v: k for k, v in m.items()}
+        if via == "relabel-copy":
+            return g.relabel_atoms(back, copy=True)
+        g.relabel_atoms(back, copy=False)
+        return g
+    if via == "copy":
+        return build(pg, cls_name, rng=rng).copy()
+    if via == "copy-construct":
+        return C[cls_name](build(pg, cls_name, rng=rng))
+    if via == "json":
+        from stereomolgraph.experimental import JSONHandler
+
+        return JSONHandler.json_deserialize(JSONHandler.json_serialize(build(pg, cls_name, rng=rng)))
+    raise ValueError(via)
+
+
+class DerivationWrong(Exception):
+    """the library operation used to derive an input graph did not produce the intended graph"""
+
+    def __init__(self, via, what):
+        super().__init__(f"{via}: {what}")
+        self.via, self.what = via, what
+
+
+def via_for(seed: int) -> str:
+    k = seed % 15
+    return VIAS[k] if k < len(VIAS) else "direct"
+
+
+def build_case(pg: dict, seed: int, cls_name: str | None = None, via: str | None = None):
+    """(graph, via): the abstract graph pg built through a seed-chosen provenance; raises DerivationWrong when the
+    derived graph is not pg (that is a defect of the deriving operation, reported by the caller as a violation)."""
+    import random
+
+    rng = random.Random(seed)
+    via = via or via_for(seed)
+    try:
+        g = build_via(pg, via, rng, cls_name)
+    except Exception as e:  # noqa: BLE001
+        raise DerivationWrong(via, f"raised {e!r}") from e
+    if via != "direct":
+        S = snap(g)
+        S["achange"] = {k: v for k, v in S["achange"].items() if v}
+        S["bchange"] = {k: v for k, v in S["bchange"].items() if v}
+        want = sem.pg_copy(pg)
+        want["achange"] = {k: v for k, v in want["achange"].items() if v}
+        want["bchange"] = {k: v for k, v in want["bchange"].items() if v}
+        if cls_name and cls_name != pg["cls"]:
+            return g, via
+        d = sem.pg_diff(want, S, mode="same", attrs=True)
+        if d:
+            raise DerivationWrong(via, d[0])
+    return g, via
